@@ -418,4 +418,4 @@ func c16CorpusSandbox() []any {
 	return out
 }
 
-func c16Exhaustive(tier string) []any { return nil }
+func c16Exhaustive(tier string) []any { return c16ExhaustivePath(tier) }
